@@ -84,9 +84,12 @@ def run(ctx):
             use = pairs if thorough else rng.sample(pairs, 10)
             for a, b in use:
                 da, db = digs[a], digs[b]
-                if "WEXC" in (da[0], db[0]):
-                    unwritable += 1         # this input cannot be written with one of the two configurations
+                if da[0] == "WEXC" and db[0] == "WEXC":
+                    unwritable += 1         # this input cannot be written with either of the two configurations
                     continue
+                # written by one configuration and refused by the other: the outcome depends on how it was written
+                da = ("EXC", da[1]) if da[0] == "WEXC" else da
+                db = ("EXC", db[1]) if db[0] == "WEXC" else db
                 diff = None
                 if da[0] != db[0] and da[0] != "EXC" and db[0] != "EXC":
                     diff = str(roundtrip.diff_items(da[1], db[1])[:3]) or "curve data differ"
@@ -99,7 +102,7 @@ def run(ctx):
                 ctx.evaluations += 1
                 ctx.case([name, case, a, b])
     ctx.extra["skipped_unreadable_or_unwritable"] = skipped
-    ctx.extra["pairs_skipped_one_configuration_cannot_write"] = unwritable
+    ctx.extra["pairs_skipped_neither_configuration_can_write"] = unwritable
     ctx.exhaustive = thorough
     fails, _ = ctx.validate("Trace_RoundTrip", {"traces": [[e] for e in events]})
     for tid, l, clause in fails:
